@@ -373,7 +373,7 @@ def _simulate(sc, chooser, faults, with_inject):
                             ls.get_failed_discovers())
             elif mode == 'thread':
                 net.plan = list(plan)
-                light_set_mod._start_light_refresh()
+                ls = env.start_refresh_thread()
                 sim.sleep(40.0)
                 th = sim.thread('discovery')
                 if th is None or th.state == 'done':
